@@ -138,6 +138,12 @@ def _reversal(e):
         return "sorted", e.args[0]
     if isinstance(e, ast.Name):
         return "none", e
+    # an arithmetic expression / conversion call without any re-ordering construct inside
+    reorder = any((isinstance(n_, ast.Slice) and n_.step is not None) or
+                  (isinstance(n_, ast.Call) and (dotted(n_.func) or "").split(".")[-1] in ("flip", "flipud", "fliplr", "sort", "sorted", "argsort", "unique", "msort", "roll", "take"))
+                  for n_ in ast.walk(e))
+    if not reorder and isinstance(e, (ast.BinOp, ast.Call, ast.Attribute)):
+        return "none", e
     return None, e
 
 
